@@ -33,6 +33,7 @@ BUILT = {
  "C16": ("exploration", "DTC (all 2^19 SPN), lamp (all 5^4) and DM22 codecs enumerated against the J1939-73 bit layout; generated end-to-end DM1 histories (1..400 codes, single frame / BAM / FD multi-PG / FD BAM, several cycles, stop_send then silence) on both layers.", "5/C16"),
  "C17": ("exploration", "Generated DM14 read/write transactions (1..255 bytes, object sizes 1/2/4/8, raw/converted, signed/unsigned, seed/key on/off, back to back) between two real stacks with blocking application threads in virtual time, judged by a reference memory model, proceed-callback arguments and idleness afterwards.", "5/C17"),
  "C18": ("exploration", "Generated histories of DM14 operations with failure fates (wrong key, refusal by the proceed callback, respond(False) with every J1939 error code, absent server) judged by: callbacks only after the matching key (bus trace), exception text and timing, and success of the next well-formed operation.", "5/C18"),
+ "C19": ("fault_enumeration", "An intruding DM14 (other source address, or the requester's own address with another pointer; once or three times) injected after every bus frame of every transaction shape, differential against the undisturbed run: callbacks, client result, respond() result, completion, and 'the only answer is a failed/busy DM15 to the sender'.", "5/C19"),
 }
 
 
@@ -69,7 +70,7 @@ def main():
                      "kind_free_text": "Hypothesis-generated scenarios (and complete enumerations of finite parts) executed on the real stack under a deterministic virtual-time kernel (vlib/), explicit oracle per property"}],
         "checks": checks,
         "notes": "See DESIGN.md. known_findings.json lists genuine defects (fixed ones with their fix commit); corpus/<ID>/ holds regression scenarios replayed first in every quick run; seeded/ holds confirmed property-breaking changes used for sensitivity.",
-        "not_applicable": [{"property_id": p["id"], "reason": "check under construction in this session (not yet registered); the technique applies, see DESIGN.md section 5"}
+        "not_applicable": [{"property_id": p["id"], "reason": "check under construction (not yet registered); the technique applies, see DESIGN.md section 5"}
                            for p in props if p["id"] not in BUILT],
     }
     with open(os.path.join(VERIF, "MANIFEST.json"), "w") as f:
